@@ -176,27 +176,9 @@ Section DesymSem.
 Variable outv : nat -> Z.                 (* values defined outside the block (constants, arguments) *)
 Variable usef : nat -> list Z -> Z.       (* what the op with result id computes from its operand values *)
 Variable init : nat -> Z.                 (* content of a symbol's cell on entry (symbols of an outer scope) *)
-
-Definition fenv := nat -> option Z.
-Definition upd (f : fenv) (k : nat) (z : Z) : fenv := fun k' => if Nat.eqb k' k then Some z else f k'.
-Definition valof (fe ue : fenv) (v : sval) : Z :=
-  match v with
-  | VOut n => match ue n with Some z => z | None => outv n end
-  | VFetch r => match fe r with Some z => z | None => 0 end
-  end.
-Definition cell (sy : fenv) (s : nat) : Z := match sy s with Some z => z | None => init s end.
-
-(* executing a block with a store (symbol -> value): the observable result is the list of values the
-   non-symref ops compute, in order *)
-Fixpoint run (ops : list sop) (sy fe ue : fenv) : list (nat * Z) :=
-  match ops with
-  | [] => []
-  | SDeclare _ :: r => run r sy fe ue
-  | SUpdate s v :: r => run r (upd sy s (valof fe ue v)) fe ue
-  | SFetch s x :: r => run r sy (upd fe x (cell sy s)) ue
-  | SUse id args :: r =>
-      let z := usef id (map (valof fe ue) args) in (id, z) :: run r sy fe (upd ue id z)
-  end.
+Notation valof := (sym_valof outv).
+Notation cell := (sym_cell init).
+Notation run := (sym_run outv usef init).
 
 Lemma existsb_false_In : forall (p : sval -> bool) l v, existsb p l = false -> In v l -> p v = false.
 Proof.
@@ -227,8 +209,8 @@ Lemma resolve_ok : forall sm fm sy1 fe1 sy2 fe2 ue seen v,
 Proof.
   intros sm fm sy1 fe1 sy2 fe2 ue seen v I. destruct v as [n|r]; [reflexivity|].
   cbn [resolve]. destruct (val_lookup r fm) as [w|] eqn:E.
-  - destruct (inv_f_some _ _ _ _ _ _ _ _ I r w E) as [H _]. cbn [valof]. rewrite H. reflexivity.
-  - cbn [valof]. rewrite (inv_f_none _ _ _ _ _ _ _ _ I r E). reflexivity.
+  - destruct (inv_f_some _ _ _ _ _ _ _ _ I r w E) as [H _]. cbn [sym_valof]. rewrite H. reflexivity.
+  - cbn [sym_valof]. rewrite (inv_f_none _ _ _ _ _ _ _ _ I r E). reflexivity.
 Qed.
 
 Lemma resolve_seen : forall sm fm sy1 fe1 sy2 fe2 ue seen v,
@@ -255,7 +237,7 @@ Theorem forward_preserves : forall ops sm fm sy1 fe1 sy2 fe2 ue seen,
   run (forward ops sm fm) sy2 fe2 ue = run ops sy1 fe1 ue.
 Proof.
   induction ops as [|o rest IH]; intros sm fm sy1 fe1 sy2 fe2 ue seen Hwf I; [reflexivity|].
-  destruct o as [s|s v|s x|id args]; cbn [forward run wf_block] in *.
+  destruct o as [s|s v|s x|id args]; cbn [forward sym_run wf_block] in *.
   - eapply IH; eassumption.
   - eapply IH; [eassumption|].
     constructor.
@@ -286,15 +268,15 @@ Proof.
       * intros r w' H. cbn [val_lookup] in H. unfold upd.
         destruct (Nat.eqb r x) eqn:E.
         -- inversion H; subst. apply Nat.eqb_eq in E. subst r. split.
-           ++ unfold cell. rewrite Hsy. reflexivity.
+           ++ unfold sym_cell. rewrite Hsy. reflexivity.
            ++ split; [right; assumption|left; reflexivity].
         -- destruct (inv_f_some _ _ _ _ _ _ _ _ I r w' H) as [H1 [H2 H3]].
            split; [assumption|split; right; assumption].
       * intros r H. cbn [val_lookup] in H. unfold upd.
         destruct (Nat.eqb r x) eqn:E; [discriminate|]. apply (inv_f_none _ _ _ _ _ _ _ _ I). assumption.
     + (* not forwarded: the fetch stays and reads the same cell *)
-      cbn [run]. pose proof (inv_sym_none _ _ _ _ _ _ _ _ I s Es) as Hcell.
-      assert (Hc : cell sy2 s = cell sy1 s) by (unfold cell; rewrite Hcell; reflexivity).
+      cbn [sym_run]. pose proof (inv_sym_none _ _ _ _ _ _ _ _ I s Es) as Hcell.
+      assert (Hc : cell sy2 s = cell sy1 s) by (unfold sym_cell; rewrite Hcell; reflexivity).
       rewrite Hc. eapply IH; [eassumption|].
       constructor.
       * intros s' w' H. destruct (inv_sym_some _ _ _ _ _ _ _ _ I s' w' H) as [H1 H2].
